@@ -97,6 +97,27 @@ def intersectFields (rec : Table → Nat → Nat → TRes) (never : Nat) :
         | some (T2, none) => some (T2, none)
         | some (T2, some fs) => some (T2, some ((p.1.1, fi) :: fs))
 
+/-- the tuple arm of `intersect_pair` (after `never` has been registered). -/
+def meetTuple (rec : Table → Nat → Nat → TRes) (T : Table) (never id1 id2 : Nat) : TRes :=
+  match T.tuples[id1]?, T.tuples[id2]? with
+  | some i1, some i2 =>
+    if i1.name ≠ i2.name ∨ i1.fields.length ≠ i2.fields.length then some (T, never)
+    else
+      match intersectFields rec never T (i1.fields.zip i2.fields) with
+      | none => none
+      | some (T1, none) => some (T1, never)
+      | some (T1, some fields) =>
+        let r := T1.registerTuple i1.name fields
+        some (r.1.registerType (.tuple r.2))
+  | _, _ => some (T, never)
+
+/-- the `_` arm of `intersect_pair`: keep the left operand iff the two overlap. -/
+def meetFallback (rf : Nat) (T : Table) (never a b : Nat) : TRes :=
+  match typesOverlap T rf a b with
+  | none => none
+  | some true => some (T, a)
+  | some false => some (T, never)
+
 /-- `intersect_pair(a, b, program)` with `intersect_types` abstracted as `rec`. -/
 def intersectPair (rf : Nat) (rec : Table → Nat → Nat → TRes) (T : Table) (a b : Nat) : TRes :=
   if a = b then some (T, a)
@@ -114,23 +135,8 @@ def intersectPair (rf : Nat) (rec : Table → Nat → Nat → TRes) (T : Table) 
       | .integer, .integer => some (T, a)
       | .binary, .binary => some (T, a)
       | .reference, .reference => some (T, a)
-      | .tuple id1, .tuple id2 =>
-        match T.tuples[id1]?, T.tuples[id2]? with
-        | some i1, some i2 =>
-          if i1.name ≠ i2.name ∨ i1.fields.length ≠ i2.fields.length then some (T, never)
-          else
-            match intersectFields rec never T (i1.fields.zip i2.fields) with
-            | none => none
-            | some (T1, none) => some (T1, never)
-            | some (T1, some fields) =>
-              let r := T1.registerTuple i1.name fields
-              some (r.1.registerType (.tuple r.2))
-        | _, _ => some (T, never)
-      | _, _ =>
-        match typesOverlap T rf a b with
-        | none => none
-        | some true => some (T, a)
-        | some false => some (T, never)
+      | .tuple id1, .tuple id2 => meetTuple rec T never id1 id2
+      | _, _ => meetFallback rf T never a b
     | _, _ => some (T, never)
 
 /-- the double loop of `intersect_types`: collect the non-never pieces. -/
